@@ -46,38 +46,39 @@ var verifDir = func() string {
 
 // Run is one exploration of one harness function.
 type Run struct {
-	Name      string
-	Pkg       string // import path of the harness package
-	Harness   string
-	Params    map[string]int64
-	Overrides map[string]string
-	Delay     int
-	LIFO      bool
-	Race      bool
-	MapOrder  bool // fork over the iteration orders of small maps
-	MaxPaths  int64
-	MaxSteps  int64
-	MaxDepth  int
-	MaxEnum   int
-	Reach     []string // vacuity witnesses: tags that must be reached on some path
-	Budget    time.Duration
+	Name              string
+	Pkg               string // import path of the harness package
+	Harness           string
+	Params            map[string]int64
+	Overrides         map[string]string
+	Delay             int
+	LIFO              bool
+	Race              bool
+	MapOrder          bool // fork over the iteration orders of small maps
+	MaxPaths          int64
+	MaxSteps          int64
+	MaxDepth          int
+	MaxEnum           int
+	Reach             []string // vacuity witnesses: tags that must be reached on some path
+	Budget            time.Duration
 	BudgetIsViolation bool
 	StopAfter         int // stop the run after this many violations (it is broken anyway)
 }
 
 // Property describes how one property is decided.
 type Property struct {
-	ID          string
-	Patterns    []string // extra packages loaded with syntax
-	HarnessDirs []string // directories (relative to /repo) that receive harness overlays
-	Runs        func(tier string) []Run
-	Bounds      func(tier string) map[string]interface{}
-	Outside     []string
-	Assumptions []string
-	ReplayTags  string // extra build tags for native replay (e.g. "sqlite")
-	NoReplay    map[string]string // harness -> reason why native replay is not possible
-	Preflight     [][2]string // native tests {test name, package} that must pass before the symbolic runs count (model = real code's output)
-	OnlyMsgPrefix string          // only violations whose message starts with this belong to the property (harnesses shared with another property)
+	ID            string
+	Patterns      []string // extra packages loaded with syntax
+	HarnessDirs   []string // directories (relative to /repo) that receive harness overlays
+	Runs          func(tier string) []Run
+	Bounds        func(tier string) map[string]interface{}
+	Outside       []string
+	Assumptions   []string
+	ReplayTags    string            // extra build tags for native replay (e.g. "sqlite")
+	NoReplay      map[string]string // harness -> reason why native replay is not possible
+	Preflight     [][2]string       // native tests {test name, package} that must pass before the symbolic runs count (model = real code's output)
+	RepeatNative  bool              // counterexamples may depend on goroutine scheduling: a native replay that does not reproduce is repeated (go test -count=200 -failfast)
+	OnlyMsgPrefix string            // only violations whose message starts with this belong to the property (harnesses shared with another property)
 }
 
 var registry = map[string]*Property{}
@@ -201,7 +202,7 @@ func buildOverlay(dirs []string, work string) (map[string][]byte, map[string]str
 			for _, fn := range fns {
 				sb.WriteString("\t\t\"" + fn + "\": " + fn + ",\n")
 			}
-			sb.WriteString("\t}\n\tverifTB = t\n\tf := table[os.Getenv(\"VERIF_HARNESS\")]\n\tif f == nil {\n\t\tt.Skip(\"no such harness here\")\n\t}\n\tf()\n\tif len(verifReplayState.Failed) > 0 {\n\t\tt.Fatalf(\"VERIF-REPLAY-REPRODUCED: %v\", verifReplayState.Failed)\n\t}\n}\n")
+			sb.WriteString("\t}\n\tverifTB = t\n\tf := table[os.Getenv(\"VERIF_HARNESS\")]\n\tif f == nil {\n\t\tt.Skip(\"no such harness here\")\n\t}\n\t// (go test -count=N runs this function N times in one process: start from the first input each time)\n\tverifReplayState.pos = 0\n\tverifReplayState.Failed = nil\n\tf()\n\tif len(verifReplayState.Failed) > 0 {\n\t\tt.Fatalf(\"VERIF-REPLAY-REPRODUCED: %v\", verifReplayState.Failed)\n\t}\n}\n")
 			tf := filepath.Join(work, strings.ReplaceAll(d, "/", "_")+"_zz_verif_replay_test.go")
 			os.WriteFile(tf, []byte(sb.String()), 0o644)
 			replace[filepath.Join(repoDir, d, "zz_verif_replay_test.go")] = tf
@@ -212,29 +213,30 @@ func buildOverlay(dirs []string, work string) (map[string][]byte, map[string]str
 }
 
 type replayFile struct {
-	Property  string            `json:"property"`
-	Pkg       string            `json:"pkg"`
-	Harness   string            `json:"harness"`
-	Kind      string            `json:"kind"`
-	Msg       string            `json:"msg"`
-	Tag       string            `json:"tag"`
-	Where     string            `json:"where"`
-	Values    []int64           `json:"values"`
-	InputSeq  []string          `json:"input_seq"`
-	Inputs    map[string]string `json:"inputs"`
-	Strs      map[string]string `json:"strs"`
-	Params    map[string]int64  `json:"params"`
-	Decisions []interp.Decision `json:"decisions"`
-	Notes     []string          `json:"notes,omitempty"`
-	Native    string            `json:"native_replay"`
-	NativeHarness string        `json:"native_harness,omitempty"`
+	Property      string            `json:"property"`
+	Pkg           string            `json:"pkg"`
+	Harness       string            `json:"harness"`
+	Kind          string            `json:"kind"`
+	Msg           string            `json:"msg"`
+	Tag           string            `json:"tag"`
+	Where         string            `json:"where"`
+	Values        []int64           `json:"values"`
+	InputSeq      []string          `json:"input_seq"`
+	Inputs        map[string]string `json:"inputs"`
+	Strs          map[string]string `json:"strs"`
+	Params        map[string]int64  `json:"params"`
+	Decisions     []interp.Decision `json:"decisions"`
+	Notes         []string          `json:"notes,omitempty"`
+	Native        string            `json:"native_replay"`
+	NativeHarness string            `json:"native_harness,omitempty"`
+	Scheduled     bool              `json:"-"`
 }
 
 func writeReplay(prop *Property, run Run, v interp.Violation) (string, *replayFile) {
 	rf := &replayFile{
 		Property: prop.ID, Pkg: run.Pkg, Harness: run.Harness, Kind: v.Kind, Msg: v.Msg, Tag: v.Tag, Where: v.Where,
 		Values: v.Values, InputSeq: v.InputSeq, Inputs: v.Inputs, Params: run.Params, Decisions: v.Decisions, Notes: v.Notes,
-		Strs: map[string]string{},
+		Strs: map[string]string{}, Scheduled: prop.RepeatNative,
 	}
 	if v.ReplayHarness != "" {
 		rf.NativeHarness = v.ReplayHarness
@@ -296,6 +298,15 @@ func nativeReplay(prop *Property, rf *replayFile, path string, replace map[strin
 	lw := &limitedWriter{max: 1 << 20}
 	cmd.Stdout, cmd.Stderr = lw, lw
 	cmd.Run()
+	if rf.Kind == "assert" && !lw.has("VERIF-ASSERT-FAILED") && !lw.has("panic:") && rf.Scheduled {
+		// the counterexample took scheduling decisions: run the same inputs repeatedly under the native scheduler
+		cmd2 := exec.Command("go", "test", "-tags", tags, "-vet=off", "-count=200", "-failfast", "-v", "-timeout", "280s", "-overlay", ovPath, "-run", "^TestVerifReplay$", "."+rel)
+		cmd2.Dir = repoDir
+		cmd2.Env = append(os.Environ(), "GOFLAGS=-mod=mod", "GOPROXY=off", "VERIF_REPLAY="+path, "VERIF_HARNESS="+nativeHarnessOf(rf))
+		lw = &limitedWriter{max: 1 << 20}
+		cmd2.Stdout, cmd2.Stderr = lw, lw
+		cmd2.Run()
+	}
 	s := lw.String()
 	if len(s) > 6000 {
 		s = s[:3000] + "\n...\n" + s[len(s)-3000:]
@@ -568,19 +579,19 @@ func runProperty(prop *Property, tier, replayPath string, workers int, solver st
 	}
 	var (
 		totalPaths, totalDecisions, totalQueries, totalObl, totalDis, totalChoices int64
-		solverS                                                                     float64
-		funcs                                                                       = map[string]bool{}
-		stubs                                                                       = map[string]int64{}
-		samples                                                                     []interface{}
-		runSummaries                                                                []interface{}
-		inconclusive                                                                []string
-		exhaustive                                                                  = true
-		nativeReplays                                                               int
-		newViolations                                                               []string
-		knownHit                                                                    = map[string]string{}
-		knownConfirmed                                                              = []string{}
-		allViolations                                                               int
-		otherPropertyEvents                                                         int
+		solverS                                                                    float64
+		funcs                                                                      = map[string]bool{}
+		stubs                                                                      = map[string]int64{}
+		samples                                                                    []interface{}
+		runSummaries                                                               []interface{}
+		inconclusive                                                               []string
+		exhaustive                                                                 = true
+		nativeReplays                                                              int
+		newViolations                                                              []string
+		knownHit                                                                   = map[string]string{}
+		knownConfirmed                                                             = []string{}
+		allViolations                                                              int
+		otherPropertyEvents                                                        int
 	)
 	if !skipNative && only == "" {
 		for _, pf := range prop.Preflight {
@@ -750,26 +761,26 @@ func runProperty(prop *Property, tier, replayPath string, workers int, solver st
 	}
 	sort.Strings(kh)
 	ev.Coverage = map[string]interface{}{
-		"states":                        max64(totalPaths, 0),
-		"transitions":                   totalDecisions + totalChoices,
-		"traces_validated_against_impl": nativeReplays,
-		"samples":                       samples,
-		"obligations":                   totalObl,
-		"discharged":                    totalDis,
-		"queries":                       totalQueries,
-		"solver_s":                      round2(solverS),
-		"solver":                        solver,
-		"functions_encoded":             fl,
-		"source_sha256":                 w.FileHashes,
-		"stubs":                         sl,
-		"runs":                          runSummaries,
-		"exhaustive":                    exhaustive && len(inconclusive) == 0,
-		"inconclusive":                  inconclusive,
-		"known_findings_reported":       kh,
+		"states":                            max64(totalPaths, 0),
+		"transitions":                       totalDecisions + totalChoices,
+		"traces_validated_against_impl":     nativeReplays,
+		"samples":                           samples,
+		"obligations":                       totalObl,
+		"discharged":                        totalDis,
+		"queries":                           totalQueries,
+		"solver_s":                          round2(solverS),
+		"solver":                            solver,
+		"functions_encoded":                 fl,
+		"source_sha256":                     w.FileHashes,
+		"stubs":                             sl,
+		"runs":                              runSummaries,
+		"exhaustive":                        exhaustive && len(inconclusive) == 0,
+		"inconclusive":                      inconclusive,
+		"known_findings_reported":           kh,
 		"known_findings_confirmed_natively": knownConfirmed,
-		"outside_the_claim":             prop.Outside,
+		"outside_the_claim":                 prop.Outside,
 		"events_belonging_to_other_properties_ignored": otherPropertyEvents,
-		"explanation":                   "bounded symbolic execution of go/ssa lowered from /repo's working tree; states = symbolic paths completed, transitions = solver-decided branches + fork choices",
+		"explanation": "bounded symbolic execution of go/ssa lowered from /repo's working tree; states = symbolic paths completed, transitions = solver-decided branches + fork choices",
 	}
 	if prop.Bounds != nil {
 		ev.Coverage["bounds"] = prop.Bounds(tier)
